@@ -168,6 +168,11 @@ func c14Templates() map[string][]gen.Node {
 		// b-and, b-or and b-xor are operators; b - andx, b - orx and b - xory are differences, however they are laid out
 		"minus-before-operator-like-names": {tx("["), pr(bin("-", nm("b"), nm("orx"))), tx("]["), pr(bin("-", nm("b"), nm("andx"))), tx("]["), pr(bin("-", nm("b"), nm("xory"))), tx("]["),
 			pr(bin("+", bin("-", nm("b"), nm("order2")), bin("b-or", nm("b"), nm("orx")))), tx("]["), pr(bin("-", nm("nb"), nm("andx"))), tx("]")},
+		// text that begins with closing braces right behind an interpolation: "p{color:#{v}}" - the first brace ends the
+		// interpolation, the second is text, however much white space stands inside the interpolation
+		"interpolation-before-braces": {tx("["), pr(&gen.EInterp{Parts: []gen.Expr{&gen.EStr{S: "p{color:"}, nm("s"), &gen.EStr{S: "}"}}}), tx("]["), pr(&gen.EInterp{Parts: []gen.Expr{nm("n"), &gen.EStr{S: "}}"}, nm("s"), &gen.EStr{S: "}}}"}}}), tx("]["),
+			pr(&gen.EAttr{X: &gen.EGroup{X: &gen.EHash{Keys: []gen.Expr{nm("a")}, Vals: []gen.Expr{&gen.EInterp{Parts: []gen.Expr{nm("s"), &gen.EStr{S: "}"}}}}}}, Key: str("a"), Dot: true}), tx("]["),
+			pr(&gen.EInterp{Parts: []gen.Expr{&gen.EStr{S: "%"}, bin("+", nm("n"), num(1)), &gen.EStr{S: "%}"}}}), tx("]")},
 		// a backslash is a character like any other in either kind of quotes: there are no escape sequences
 		"backslash-strings": {tx("["), pr(bin("~", str("C:\\temp\\new"), bin("~", str("a\\nb"), bin("~", str("\\"), bin("~", str("\\\\"), str("t\\r\\x41\\u0041\\0")))))), tx("]["), pr(str("x\\")), tx("]["),
 			pr(&gen.EInterp{Parts: []gen.Expr{&gen.EStr{S: "i\\t"}, nm("n"), &gen.EStr{S: "\\n"}}}), tx("]")},
